@@ -102,8 +102,10 @@ def check(ctx):
     for f, c in sites:
         mod = f.module
         okm = f.cls is not None and f.cls.name in exported and not f.name.startswith("_") and f.parent is None
+        # ... or in the exported function uberjob.run (which creates the gather calls of its `output` argument for its caller)
+        okm = okm or (f.cls is None and f.parent is None and f.qualname in m.api_funcs and not f.name.startswith("_"))
         ctx.ob("C19.S1", f"{f.short}/in-api-method", okm, loc(f, c),
-               "captured in a public API method (hop 1 = this method, hop 2 = the user's line)" if okm else
+               "captured in a public API method / function (hop 1 = it, hop 2 = the user's line)" if okm else
                "the frame is captured in an internal helper / nested function: the traceback starts inside uberjob", norm(c))
         nested = any(isinstance(p, (ast.ListComp, ast.SetComp, ast.DictComp, ast.GeneratorExp, ast.Lambda)) for p in _anc(mod, c))
         ctx.ob("C19.S1", f"{f.short}/own-scope", not nested, loc(f, c),
